@@ -32,12 +32,14 @@ class ConnExec:
         self.mode: Dict[int, str] = {}
         self.results: Dict[int, dict] = {}
         self._acq_seen = 0
+        self.keysig: Dict[int, str] = {}
+        self.conn_sig: Dict[int, str] = {}
         self.pending_resp: Dict[int, dict] = {}   # per conn: state of the response being fed
         self.done_full: Dict[int, bool] = {}
 
     # ---- recording helpers
     def rec(self, ev: str, **kw: Any) -> None:
-        e = {"ev": ev, "j": 0, "c": -1, "samekey": True, "ep": 0, "m": 0, "part": "", "surplus": False,
+        e = {"ev": ev, "j": 0, "c": -1, "samekey": True, "alive": True, "ep": 0, "m": 0, "part": "", "surplus": False,
              "bm": -1, "how": ""}
         e.update(kw)
         self.events.append(e)
@@ -51,7 +53,10 @@ class ConnExec:
             self._acq_seen += 1
             j = int(name[1:])
             self.req_conn[j] = cidx
-            self.rec("acquire", j=j, c=cidx, samekey=(self.kit.conns[cidx].key == key))
+            sig = self.keysig.get(j, "")
+            first = self.conn_sig.setdefault(cidx, sig)
+            self.rec("acquire", j=j, c=cidx, samekey=(self.kit.conns[cidx].key == key and first == sig),
+                     alive=bool(self.kit.acquire_alive[self._acq_seen - 1]))
         for j, r in list(self.results.items()):
             if not r.get("rec"):
                 r["rec"] = True
@@ -66,6 +71,16 @@ class ConnExec:
         """mode: read | unread (release without reading) | close | hold (keep the response open)"""
         self.mode[j] = mode
         ex = self
+        steps = kw.pop("_partial_steps", None)
+        # connection key as the CALLER sees it, computed independently of ClientRequest.connection_key
+        from yarl import URL as _URL
+        u = _URL(url)
+        ph = kw.get("proxy_headers")
+        pa = None
+        self.keysig[j] = json.dumps([u.scheme in ("https", "wss"), u.raw_host, u.port, str(kw.get("proxy") or ""),
+                                     sorted((str(k).lower(), str(v)) for k, v in (ph or {}).items()),
+                                     [pa.login, pa.password] if pa is not None else None,
+                                     str(kw.get("server_hostname") or ""), repr(kw.get("ssl", True))])
 
         async def go() -> None:
             res: dict = {}
@@ -120,7 +135,12 @@ class ConnExec:
                 res["exc"] = type(exc).__name__
 
         self.kit.spawn(f"r{j}", go())
-        self.sync()
+        if steps is None:
+            self.sync()
+        else:
+            for _ in range(steps):       # leave the request in the middle of acquiring its connection
+                if not self.loop.step_one():
+                    break
 
     def cancel(self, j: int) -> None:
         t = self.kit.tasks.get(f"r{j}")
@@ -261,8 +281,26 @@ def random_exec(ctx: Ctx, loop: steploop.StepLoop, rng: Any) -> dict:
     skw: Dict[str, Any] = {}
     if rng.random() < 0.3:
         skw["timeout"] = ClientTimeout(total=None, sock_read=5)
+    traced = rng.random() < 0.3
+    if traced:
+        from aiohttp import TraceConfig
+
+        tc = TraceConfig()
+
+        async def _cb(session: Any, c: Any, params: Any) -> None:
+            await asyncio.sleep(0)
+
+        for sig in ("on_connection_queued_start", "on_connection_queued_end", "on_connection_create_start",
+                    "on_connection_create_end", "on_connection_reuseconn", "on_request_start"):
+            getattr(tc, sig).append(_cb)
+        skw["trace_configs"] = [tc]
     x = ConnExec(loop, limit=limit, session_kw=skw)
     hosts = ["http://a/", "http://a/", "http://a:81/", "https://a/", "http://b/"]
+    use_proxy = rng.random() < 0.3
+    proxy_kws = [{}, {"proxy": "http://proxy:3128"}, {"proxy": "http://proxy:3128", "proxy_headers": {"X-Tenant": "one"}},
+                 {"proxy": "http://proxy:3128", "proxy_headers": {"X-Tenant": "two"}},
+                 {"proxy": "http://alice:pw@proxy:3128"}, {"proxy": "http://bob:pw@proxy:3128"},
+                 {"proxy": "http://proxy2:3128"}]
     nreq = rng.randint(2, 6)
     j = 0
     inflight: List[int] = []
@@ -285,7 +323,22 @@ def random_exec(ctx: Ctx, loop: steploop.StepLoop, rng: Any) -> dict:
         if a == "req":
             j += 1
             mode = rng.choice(["read", "read", "read", "unread", "close"])
-            x.request(j, rng.choice(hosts) + f"p{j}", mode)
+            rkw: Dict[str, Any] = dict(rng.choice(proxy_kws)) if use_proxy else {}
+            url = (rng.choice(["http://a/", "http://a/", "http://b/"]) if rkw.get("proxy") else rng.choice(hosts)) + f"p{j}"
+            pooled_now = [c for c in x.kit.conns if c.open and c.owner is None]
+            if traced and pooled_now and rng.random() < 0.5:
+                # leave the request suspended inside connect() (trace callback) and let the peer
+                # push bytes onto the connection that is being re-acquired
+                rkw["_partial_steps"] = rng.randint(1, 4)
+                x.request(j, url, mode, **rkw)
+                c = rng.choice(pooled_now)
+                if c.open and c.owner is None:
+                    sm = x.new_marker()
+                    h, b = x.response_bytes(sm)
+                    x.feed(c.idx, h + b if rng.random() < 0.7 else h[:-6], sm, "whole", True)
+                x.sync()
+            else:
+                x.request(j, url, mode, **rkw)
             inflight.append(j)
         elif a == "idle":
             c = rng.choice(pooled)
